@@ -14,8 +14,18 @@ from .types import Chunks2d
 
 
 def _find_common_type(array_types, scalar_types):
-    # TODO: don't use find_common_type as it's being removed from numpy
-    return np.find_common_type(array_types, scalar_types)
+    # np.find_common_type is gone in numpy 2.0, this is the rule it implemented:
+    # scalars only matter when they are of a "higher" kind than the arrays
+    array_type = np.result_type(*array_types) if len(array_types) > 0 else None
+    scalar_type = np.result_type(*scalar_types) if len(scalar_types) > 0 else None
+    if array_type is None or scalar_type is None:
+        return scalar_type if array_type is None else array_type
+    kinds = "buifc"
+    if array_type.kind not in kinds or scalar_type.kind not in kinds:
+        return array_type
+    if kinds.index(scalar_type.kind) > kinds.index(array_type.kind):
+        return scalar_type
+    return array_type
 
 
 class BlockAssembler:
